@@ -87,6 +87,30 @@ theorem solver_trace_replays {fuel : Nat} {cnf : CNF} {o : Oracle} {c' : CNF}
 example : proofrecCheck (exUnsat.map dedup) [[3, 1], [2, 4, 0, 4]] = true :=
   solver_trace_replays exUnsat_run
 
+/-- `zChaff.solve` end to end, from the content of the trace file (the whitespace-separated tokens
+of its lines, numbers already read): if the lines parse, the `CL` lines replay with `logic.resolution`, every `VAR` line
+follows from its antecedent clause and the values recorded before (in level order), and the `CONF`
+clause is falsified by recorded values — i.e. if the reconstruction reaches `false` — then the CNF
+is unsatisfiable. -/
+theorem zchaff_replay_sound {cnf : CNF} {lines : List (List ZTok)}
+    (h : zCheckLines cnf lines = true) : ¬ ∃ σ, Sat σ cnf :=
+  zCheckLines_sound h
+
+/-- `(a) (¬a ∨ b) (¬b)`: no learned clause, two implications, conflict in clause 2 -/
+example : zCheckLines [[(1, true)], [(1, false), (2, true)], [(2, false)]]
+    [[.word "VAR:", .num 1, .word "L:", .num 0, .word "V:", .num 1, .word "A:", .num 0, .word "Lits:", .num 2],
+     [.word "VAR:", .num 2, .word "L:", .num 0, .word "V:", .num 1, .word "A:", .num 1, .word "Lits:", .num 3, .num 4],
+     [.word "CONF:", .num 2, .word "==", .num 5]] = true := by decide
+example : ¬ ∃ σ, Sat σ [[(1, true)], [(1, false), (2, true)], [(2, false)]] :=
+  zchaff_replay_sound (lines := [[.word "VAR:", .num 1, .word "L:", .num 0, .word "V:", .num 1, .word "A:", .num 0, .word "Lits:", .num 2],
+     [.word "VAR:", .num 2, .word "L:", .num 0, .word "V:", .num 1, .word "A:", .num 1, .word "Lits:", .num 3, .num 4],
+     [.word "CONF:", .num 2, .word "==", .num 5]]) (by decide)
+/-- a trace whose second implication cites the wrong clause is rejected -/
+example : zCheckLines [[(1, true)], [(1, false), (2, true)], [(2, false)]]
+    [[.word "VAR:", .num 1, .word "L:", .num 0, .word "V:", .num 1, .word "A:", .num 0, .word "Lits:", .num 2],
+     [.word "VAR:", .num 2, .word "L:", .num 0, .word "V:", .num 1, .word "A:", .num 2, .word "Lits:", .num 3, .num 4],
+     [.word "CONF:", .num 2, .word "==", .num 5]] = false := by decide
+
 /-! ### termination -/
 
 /-- The `while True` of `analyze_conflict` ends.  In a state satisfying the trail invariants
